@@ -131,7 +131,7 @@ def culprit_classes(why: Dict[str, Any]) -> str:
 
 
 def judge(ctx: Ctx, traces: List[Dict[str, Any]], names: List[str], invariants: List[str], label: str,
-          prop_prefix: str = "") -> int:
+          prop_prefix: str = "", ancestors: bool = True) -> int:
     """Validate traces; report invariant violations (re-validating the remaining traces after each one);
     a trace the model cannot follow is a machinery error (model drift), never a verdict."""
     todo = list(range(len(traces)))
@@ -169,12 +169,13 @@ def judge(ctx: Ctx, traces: List[Dict[str, Any]], names: List[str], invariants: 
                 raise MachineryError(f"model drift: trace {names[gi]} is not a behaviour of FSDurable: consumed {k}/{len(ev)} events; "
                                      f"next unexplained event: {S.describe(nxt) if nxt else None}; previous: {S.describe(ev[k - 1]) if k else None}")
         accepted += len(todo)
-        for note in post.get("ancestors", []):
+        for note in (post.get("ancestors", []) if ancestors else []):
             gi = todo[note[0] - 1]
-            ctx.cov.setdefault("ancestor_directory_notes", [])
-            txt = f"{names[gi]}: directory {note[1]!r} not yet durable in its parent at a moment the pointer named a file below it"
-            if txt not in ctx.cov["ancestor_directory_notes"]:
-                ctx.cov["ancestor_directory_notes"].append(txt)
+            notes = ctx.cov.setdefault("ancestor_directory_notes", {})
+            txt = f"directory {note[1]!r} not yet durable in its parent at a moment the pointer named a file below it"
+            notes.setdefault(txt, [])
+            if len(notes[txt]) < 4:
+                notes[txt].append(names[gi])
         todo = []
     return accepted
 
